@@ -42,4 +42,603 @@ theorem blockLo_aligned (m : Mesh) (hm : m.Inv) (item : Region) (k1 k2 : Nat →
   · rw [t3]
   · rw [t3]; nlinarith
 
+/-- Source cell of a target cell when two meshes share an edge `[lo, hi]` along axis `a`: the
+centre of target cell `j` lies in source cell `⌊(2j+1)·n / (2·n')⌋` (`n`, `n'` the cell counts of
+source and target). -/
+theorem resample_index (src tgt : Mesh) (a : Nat) (hs : 0 < src.nAt a) (ht : 0 < tgt.nAt a)
+    (hlo : tgt.region.lo a = src.region.lo a) (hhi : tgt.region.hi a = src.region.hi a)
+    (hlt : src.region.lo a < src.region.hi a) (j : Nat) (hj : j < tgt.nAt a) :
+    src.indexAx a (tgt.centreAx a ((j : Nat) : Int)) = ((2 * j + 1) * src.nAt a) / (2 * tgt.nAt a) := by
+  have hc := cell_pos src a hs hlt
+  have hcs := cover src a hs
+  have hct := cover tgt a ht
+  rw [hlo, hhi] at hct
+  have hE : (tgt.nAt a : Rat) * tgt.cellAt a = (src.nAt a : Rat) * src.cellAt a := by rw [hct, hcs]
+  have hn' : (0 : Rat) < (tgt.nAt a : Rat) := by exact_mod_cast ht
+  set k := ((2 * j + 1) * src.nAt a) / (2 * tgt.nAt a) with hk
+  have hQ : 0 < 2 * tgt.nAt a := by omega
+  have h1 : k * (2 * tgt.nAt a) ≤ (2 * j + 1) * src.nAt a := Nat.div_mul_le_self _ _
+  have h2 : (2 * j + 1) * src.nAt a < (k + 1) * (2 * tgt.nAt a) := by
+    have := Nat.lt_mul_div_succ ((2 * j + 1) * src.nAt a) hQ
+    rw [← hk] at this
+    calc (2 * j + 1) * src.nAt a < 2 * tgt.nAt a * (k + 1) := this
+      _ = (k + 1) * (2 * tgt.nAt a) := Nat.mul_comm _ _
+  have h1r : (k : Rat) * (2 * (tgt.nAt a : Rat)) ≤ (2 * (j : Rat) + 1) * (src.nAt a : Rat) := by exact_mod_cast h1
+  have h2r : (2 * (j : Rat) + 1) * (src.nAt a : Rat) < ((k : Rat) + 1) * (2 * (tgt.nAt a : Rat)) := by exact_mod_cast h2
+  have hkn : k < src.nAt a := by
+    rw [hk, Nat.div_lt_iff_lt_mul hQ]
+    calc (2 * j + 1) * src.nAt a < (2 * tgt.nAt a) * src.nAt a := Nat.mul_lt_mul_of_pos_right (by omega) hs
+      _ = src.nAt a * (2 * tgt.nAt a) := Nat.mul_comm _ _
+  apply indexAx_eq_of_bounds src a _ k hkn hc
+  · rw [centreAx_cast, hlo]
+    have key : (2 * (tgt.nAt a : Rat)) * ((k : Rat) * src.cellAt a)
+        ≤ (2 * (tgt.nAt a : Rat)) * (((j : Rat) + 1 / 2) * tgt.cellAt a) := by
+      calc (2 * (tgt.nAt a : Rat)) * ((k : Rat) * src.cellAt a)
+          = ((k : Rat) * (2 * (tgt.nAt a : Rat))) * src.cellAt a := by ring
+        _ ≤ ((2 * (j : Rat) + 1) * (src.nAt a : Rat)) * src.cellAt a := mul_le_mul_of_nonneg_right h1r hc.le
+        _ = (2 * (j : Rat) + 1) * ((src.nAt a : Rat) * src.cellAt a) := by ring
+        _ = (2 * (j : Rat) + 1) * ((tgt.nAt a : Rat) * tgt.cellAt a) := by rw [hE]
+        _ = (2 * (tgt.nAt a : Rat)) * (((j : Rat) + 1 / 2) * tgt.cellAt a) := by ring
+    have := le_of_mul_le_mul_left key (by linarith)
+    linarith
+  · rw [centreAx_cast, hlo]
+    have key : (2 * (tgt.nAt a : Rat)) * (((j : Rat) + 1 / 2) * tgt.cellAt a)
+        < (2 * (tgt.nAt a : Rat)) * (((k : Rat) + 1) * src.cellAt a) := by
+      calc (2 * (tgt.nAt a : Rat)) * (((j : Rat) + 1 / 2) * tgt.cellAt a)
+          = (2 * (j : Rat) + 1) * ((tgt.nAt a : Rat) * tgt.cellAt a) := by ring
+        _ = (2 * (j : Rat) + 1) * ((src.nAt a : Rat) * src.cellAt a) := by rw [hE]
+        _ = ((2 * (j : Rat) + 1) * (src.nAt a : Rat)) * src.cellAt a := by ring
+        _ < (((k : Rat) + 1) * (2 * (tgt.nAt a : Rat))) * src.cellAt a := mul_lt_mul_of_pos_right h2r hc
+        _ = (2 * (tgt.nAt a : Rat)) * (((k : Rat) + 1) * src.cellAt a) := by ring
+    have := lt_of_mul_lt_mul_left key (by linarith)
+    linarith
+
+theorem refine_div (j n r : Nat) (hr : 0 < r) (hn : 0 < n) : ((2 * j + 1) * n) / (2 * (r * n)) = j / r := by
+  have h1 : 2 * (r * n) = n * (2 * r) := by ring
+  rw [h1, Nat.mul_comm (2 * j + 1) n, Nat.mul_div_mul_left _ _ hn]
+  -- (2j+1)/(2r) = j / r
+  have hj := Nat.div_add_mod j r
+  have hm := Nat.mod_lt j hr
+  apply Nat.div_eq_of_lt_le
+  · calc j / r * (2 * r) = 2 * (r * (j / r)) := by ring
+      _ ≤ 2 * j + 1 := by omega
+  · calc 2 * j + 1 < 2 * (r * (j / r) + r) := by omega
+      _ = (j / r + 1) * (2 * r) := by ring
+
+theorem coarsen_div (j n r : Nat) (hn : 0 < n) : ((2 * j + 1) * (r * n)) / (2 * n) = r * j + r / 2 := by
+  have h1 : (2 * j + 1) * (r * n) = n * ((2 * j + 1) * r) := by ring
+  rw [h1, Nat.mul_comm 2 n, Nat.mul_div_mul_left _ _ hn]
+  have h2 : (2 * j + 1) * r = r + 2 * (r * j) := by ring
+  rw [h2, Nat.add_mul_div_left _ _ (by omega : 0 < 2)]
+  omega
+
+theorem inRange_of_getD (ns is : List Nat) (hl : ns.length = is.length)
+    (h : ∀ b, b < ns.length → is.getD b 0 < ns.getD b 0) : inRange ns is = true := by
+  induction ns generalizing is with
+  | nil =>
+    cases is with
+    | nil => rfl
+    | cons i is => simp at hl
+  | cons n ns ih =>
+    cases is with
+    | nil => simp at hl
+    | cons i is =>
+      rw [inRange_cons]
+      have h0 := h 0 (by simp)
+      simp only [List.getD_cons_zero] at h0
+      refine ⟨h0, ?_⟩
+      apply ih is (by simpa using hl)
+      intro b hb
+      have := h (b + 1) (by simp; omega)
+      simpa using this
+
+theorem setAt_setAt {α} (l : List α) (a : Nat) (u v : α) : setAt (setAt l a u) a v = setAt l a v := by
+  induction l generalizing a with
+  | nil => simp [setAt]
+  | cons y ys ih =>
+    cases a with
+    | zero => simp [setAt]
+    | succ a => simp [setAt, ih]
+
+/-- index of a coordinate in a block of whole cells against its index in the source: they differ
+by the block's offset — for every coordinate of the block's closed edge except its upper end,
+which the block attributes to its last cell while the source attributes the face to the next cell
+(unless the block ends at the source's boundary) -/
+theorem indexAx_block {g m : Mesh} {b off cnt : Nat} (blk : AxisBlock g m b b off cnt) (hcnt : 0 < cnt)
+    (hc : 0 < m.cellAt b) (z : Rat) (h1 : g.region.lo b ≤ z) (h2 : z ≤ g.region.hi b)
+    (hup : z < g.region.hi b ∨ g.region.hi b = m.region.hi b) :
+    m.indexAx b z = off + g.indexAx b z := by
+  have hgn : 0 < g.nAt b := by rw [blk.n]; exact hcnt
+  have hghi := block_hi blk hcnt
+  have hglt : g.region.lo b < g.region.hi b := by
+    rw [hghi, blk.lo]
+    have : (0 : Rat) < (cnt : Rat) := by exact_mod_cast hcnt
+    nlinarith
+  have hi := indexAx_lt g b z hgn
+  rw [blk.n] at hi
+  have hfit := blk.fits
+  obtain ⟨c1, c2⟩ := index_contains g b z hgn hglt h1 h2
+  rw [blk.lo, blk.cell] at c1 c2
+  have hmn : 0 < m.nAt b := by omega
+  by_cases hz : z < g.region.hi b
+  · have c2' : z < m.region.lo b + (off : Rat) * m.cellAt b + ((g.indexAx b z : Rat) + 1) * m.cellAt b := by
+      rcases c2 with c2 | ⟨_, c3⟩
+      · exact c2
+      · rw [c3] at hz; exact absurd hz (lt_irrefl _)
+    apply indexAx_eq_of_bounds m b z (off + g.indexAx b z) (by omega) hc
+    · push_cast; linarith
+    · push_cast; linarith
+  · have hzeq : z = g.region.hi b := le_antisymm h2 (not_lt.mp hz)
+    have hgm : g.region.hi b = m.region.hi b := by
+      rcases hup with h | h
+      · exact absurd h hz
+      · exact h
+    have hfull : off + cnt = m.nAt b := by
+      have e1 := hi_eq m b hmn
+      rw [← hgm, hghi] at e1
+      have : ((off : Rat) + (cnt : Rat)) * m.cellAt b = (m.nAt b : Rat) * m.cellAt b := by linarith
+      have := mul_right_cancel₀ hc.ne' this
+      exact_mod_cast this
+    rw [hzeq, hgm, indexAx_hi m b hmn hc, ← hgm]
+    have : g.indexAx b (g.region.hi b) = g.nAt b - 1 :=
+      indexAx_hi g b hgn (by rw [blk.cell]; exact hc)
+    rw [this, blk.n]; omega
+
+/-- `Region(p1, p2)` with default names and units -/
+theorem regionMk_none_inv (p1 p2 : List Rat) (tol : Rat) (r : Region)
+    (h : Region.mk? p1 p2 none none tol = .ok r) :
+    p1.length = p2.length ∧ 0 < p1.length ∧
+    r.pmin = tab p1.length (fun a => min (p1.getD a 0) (p2.getD a 0)) ∧
+    r.pmax = tab p1.length (fun a => max (p1.getD a 0) (p2.getD a 0)) := by
+  unfold Region.mk? at h
+  by_cases h1 : p1.length ≠ p2.length
+  · rw [if_pos h1] at h; cases h
+  rw [if_neg h1] at h
+  by_cases h2 : p1.length = 0
+  · rw [if_pos h2] at h; cases h
+  rw [if_neg h2] at h
+  simp only [Region.dimsOk, Region.unitsOk] at h
+  split at h
+  · cases h
+  · injection h with h
+    subst h
+    exact ⟨by omega, by omega, rfl, rfl⟩
+
+/-- the loop of `Mesh.sel` over the subregions for a plane selection: the result lists, in
+order, the subregions whose extent along the axis contains the plane's coordinate, each rebuilt
+by `Region(p1, p2)` from its corners without the axis -/
+theorem planeSubs_spec (a : Nat) (c : Rat) (subs l : List (String × Region))
+    (h : planeSubs a c subs = .ok l) :
+    List.Forall₂ (fun q p => q.1 = p.1 ∧
+        Region.mk? (removeAt p.2.pmin a) (removeAt p.2.pmax a) none none = .ok q.2)
+      l (subs.filter fun p => decide (p.2.lo a ≤ c ∧ c ≤ p.2.hi a)) := by
+  induction subs generalizing l with
+  | nil =>
+    unfold planeSubs at h
+    injection h with h; subst h
+    exact List.Forall₂.nil
+  | cons p rest ih =>
+    unfold planeSubs at h
+    split at h
+    · rename_i hdrop
+      have : decide (p.2.lo a ≤ c ∧ c ≤ p.2.hi a) = false := by
+        rw [decide_eq_false_iff_not]
+        rintro ⟨h1, h2⟩
+        rcases hdrop with hd | hd <;> linarith
+      rw [List.filter_cons_of_neg (by rw [this]; simp)]
+      exact ih l h
+    · rename_i hkeep
+      have : decide (p.2.lo a ≤ c ∧ c ≤ p.2.hi a) = true := by
+        rw [decide_eq_true_iff]
+        constructor
+        · by_contra hc; exact hkeep (Or.inr (lt_of_not_ge hc))
+        · by_contra hc; exact hkeep (Or.inl (lt_of_not_ge hc))
+      rw [List.filter_cons_of_pos (by exact this)]
+      split at h
+      · cases h
+      · rename_i r hr
+        split at h
+        · cases h
+        · rename_i l' hl'
+          injection h with h; subst h
+          exact List.Forall₂.cons ⟨rfl, hr⟩ (ih l' hl')
+
+/-- the same loop for a range selection with faces `lo`, `hi`: kept are the subregions
+overlapping the slab by more than `step` (half a cell), each rebuilt from its corners clipped to
+the slab along the axis -/
+theorem rangeSubs_spec (a : Nat) (lo hi step : Rat) (subs l : List (String × Region))
+    (h : rangeSubs a lo hi step subs = .ok l) :
+    List.Forall₂ (fun q p => q.1 = p.1 ∧
+        Region.mk? (setAt p.2.pmin a (max lo (p.2.lo a))) (setAt p.2.pmax a (min hi (p.2.hi a)))
+          none none = .ok q.2)
+      l (subs.filter fun p => decide (p.2.lo a < hi - step ∧ lo < p.2.hi a - step)) := by
+  induction subs generalizing l with
+  | nil =>
+    unfold rangeSubs at h
+    injection h with h; subst h
+    exact List.Forall₂.nil
+  | cons p rest ih =>
+    unfold rangeSubs at h
+    split at h
+    · rename_i hdrop
+      have : decide (p.2.lo a < hi - step ∧ lo < p.2.hi a - step) = false := by
+        rw [decide_eq_false_iff_not]
+        rintro ⟨h1, h2⟩
+        rcases hdrop with hd | hd <;> linarith
+      rw [List.filter_cons_of_neg (by rw [this]; simp)]
+      exact ih l h
+    · rename_i hkeep
+      have : decide (p.2.lo a < hi - step ∧ lo < p.2.hi a - step) = true := by
+        rw [decide_eq_true_iff]
+        constructor
+        · by_contra hc; exact hkeep (Or.inl (le_of_not_gt hc))
+        · by_contra hc; exact hkeep (Or.inr (le_of_not_gt hc))
+      rw [List.filter_cons_of_pos (by exact this)]
+      split at h
+      · cases h
+      · rename_i r hr
+        split at h
+        · cases h
+        · rename_i l' hl'
+          injection h with h; subst h
+          exact List.Forall₂.cons ⟨rfl, hr⟩ (ih l' hl')
+
+theorem forall2_imp_mem {α β} {R S : α → β → Prop} {l : List α} {u : List β}
+    (h : List.Forall₂ R l u) (hi : ∀ q p, p ∈ u → R q p → S q p) : List.Forall₂ S l u := by
+  induction h with
+  | nil => exact List.Forall₂.nil
+  | cons hr _ ih =>
+    exact List.Forall₂.cons (hi _ _ (List.mem_cons_self ..) hr)
+      (ih (fun q p hp => hi q p (List.mem_cons_of_mem _ hp)))
+
+/-- the subregions stored in a well-formed mesh: boxes of the mesh's dimension with ordered corners -/
+def SubsWF (m : Mesh) : Prop :=
+  ∀ p, p ∈ m.subs → p.2.pmin.length = m.ndim ∧ p.2.pmax.length = m.ndim ∧
+    ∀ b, b < m.ndim → p.2.lo b ≤ p.2.hi b
+
+theorem getMesh_bare (m : Mesh) (item : Item) (g : Mesh) (h : getMesh m item = .ok g) :
+    g.subs = [] ∧ g.bc = "" := by
+  cases item with
+  | name s =>
+    have h' : getName m s = .ok g := h
+    unfold getName at h'
+    split at h'
+    · cases h'
+    · obtain ⟨_, _, g3, g4, _⟩ := mkCell_inv _ _ _ _ h'
+      exact ⟨g3, by rw [g4]; simp [String.toLower]⟩
+  | region r =>
+    have h' : getRegion m r = .ok g := h
+    unfold getRegion at h'
+    split at h'
+    · cases h'
+    · split at h'
+      · cases h'
+      · split at h'
+        · cases h'
+        · split at h'
+          · cases h'
+          · split at h'
+            · cases h'
+            · obtain ⟨_, _, g3, g4, _⟩ := mkCell_inv _ _ _ _ h'
+              exact ⟨g3, by rw [g4]; simp [String.toLower]⟩
+
+theorem padMesh_bare (m : Mesh) (pw : List PadW) (g : Mesh) (h : padMesh m pw = .ok g) :
+    g.subs = [] ∧ g.bc = m.bc.toLower := by
+  unfold padMesh at h
+  split at h
+  · cases h
+  · split at h
+    · cases h
+    · obtain ⟨_, _, g3, g4, _⟩ := mkCell_inv _ _ _ _ h
+      exact ⟨g3, g4⟩
+
+theorem selMesh_bc (m : Mesh) (dim : String) (arg : SelArg) (g : Mesh) (h : selMesh m dim arg = .ok g) :
+    g.bc = "" := by
+  unfold selMesh at h
+  split at h
+  · cases h
+  · rename_i ai _
+    cases hs : ai.2 with
+    | plane c k =>
+      rw [hs] at h
+      have h' : selPlaneMesh m ai.1 c = .ok g := h
+      unfold selPlaneMesh at h'
+      split at h'
+      · cases h'
+      · split at h'
+        · cases h'
+        · obtain ⟨_, _, g3, _⟩ := mkMesh_inv _ _ _ _ _ h'
+          rw [g3]; simp [String.toLower]
+    | range c1 c2 k1 k2 =>
+      rw [hs] at h
+      have h' : selRangeMesh m ai.1 c1 c2 = .ok g := h
+      unfold selRangeMesh at h'
+      split at h'
+      · cases h'
+      · split at h'
+        · cases h'
+        · obtain ⟨_, _, g3, _⟩ := mkMesh_inv _ _ _ _ _ h'
+          rw [g3]; simp [String.toLower]
+
+theorem dim2index_congr (r s : Region) (h : r.dims = s.dims) (d : String) :
+    r.dim2index d = s.dim2index d := by
+  unfold Region.dim2index; rw [h]
+
+theorem whole_aligned (m : Mesh) (hm : m.Inv) : SubAligned m m.region (fun _ => 0) (fun a => m.nAt a) := by
+  refine ⟨rfl, inv_pmax_length hm, ?_⟩
+  intro a ha
+  refine ⟨inv_n_pos hm ha, le_refl _, by simp, hi_eq m a (inv_n_pos hm ha)⟩
+
+/-- the source region is a box of whole cells `L … L+n-1` of the padded mesh -/
+theorem pad_source_aligned (m : Mesh) (hm : m.Inv) (pw : List PadW)
+    (hL : ∀ b, b < m.ndim → 0 ≤ sumW m (·.lo) pw b) (hH : ∀ b, b < m.ndim → 0 ≤ sumW m (·.hi) pw b)
+    (g : Mesh) (h : padMesh m pw = .ok g) :
+    SubAligned g m.region (fun b => (sumW m (·.lo) pw b).toNat)
+      (fun b => (sumW m (·.lo) pw b).toNat + m.nAt b) := by
+  obtain ⟨e1, _, _, _, _, _, _, e8⟩ := padMesh_inv m hm pw hL hH g h
+  refine ⟨e1.symm, by rw [inv_pmax_length hm]; exact e1.symm, ?_⟩
+  intro a ha
+  obtain ⟨h1, h2, h3, blk⟩ := e8 a (by omega)
+  have hn := inv_n_pos hm (show a < m.ndim by omega)
+  refine ⟨?_, ?_, ?_, ?_⟩
+  · show (sumW m (·.lo) pw a).toNat < (sumW m (·.lo) pw a).toNat + m.nAt a; omega
+  · show (sumW m (·.lo) pw a).toNat + m.nAt a ≤ g.nAt a; rw [h1]; omega
+  · rw [blk.lo]
+  · rw [hi_eq m a hn, blk.lo, blk.cell]; push_cast; ring
+
+theorem padAxes_unknown (m : Mesh) (pw : List PadW)
+    (h : ∃ w, w ∈ pw ∧ ∀ a, m.region.dim2index w.dim ≠ .ok a) : ∃ e, padAxes m pw = .error e := by
+  induction pw with
+  | nil => obtain ⟨w, hw, _⟩ := h; cases hw
+  | cons v rest ih =>
+    obtain ⟨w, hw, hbad⟩ := h
+    unfold padAxes
+    cases hd : m.region.dim2index v.dim with
+    | error e => exact ⟨e, rfl⟩
+    | ok a =>
+      simp only
+      rcases List.mem_cons.mp hw with rfl | hw'
+      · exact absurd hd (hbad a)
+      · obtain ⟨e, he⟩ := ih ⟨w, hw', hbad⟩
+        rw [he]; exact ⟨e, rfl⟩
+
+theorem padCorners_unknown (m : Mesh) (pw : List PadW) (p1 p2 : List Rat)
+    (h : ∃ w, w ∈ pw ∧ ∀ a, m.region.dim2index w.dim ≠ .ok a) : ∃ e, padCorners m pw p1 p2 = .error e := by
+  induction pw generalizing p1 p2 with
+  | nil => obtain ⟨w, hw, _⟩ := h; cases hw
+  | cons v rest ih =>
+    obtain ⟨w, hw, hbad⟩ := h
+    unfold padCorners
+    cases hd : m.region.dim2index v.dim with
+    | error e => exact ⟨e, rfl⟩
+    | ok a =>
+      simp only
+      rcases List.mem_cons.mp hw with rfl | hw'
+      · exact absurd hd (hbad a)
+      · exact ih _ _ ⟨w, hw', hbad⟩
+
+theorem padAxes_mem (m : Mesh) (pw : List PadW) (d : List (Nat × Int × Int)) (h : padAxes m pw = .ok d)
+    (w : PadW) (hw : w ∈ pw) : ∃ a, (a, w.lo, w.hi) ∈ d := by
+  induction pw generalizing d with
+  | nil => cases hw
+  | cons v rest ih =>
+    unfold padAxes at h
+    split at h
+    · cases h
+    · rename_i a _
+      split at h
+      · cases h
+      · rename_i d' hd'
+        injection h with h; subst h
+        rcases List.mem_cons.mp hw with rfl | hw'
+        · exact ⟨a, List.mem_cons_self ..⟩
+        · obtain ⟨a', ha'⟩ := ih d' hd' hw'
+          exact ⟨a', List.mem_cons_of_mem _ ha'⟩
+
+/-- side condition under which the result of an operation is again a well-formed field: boxes
+are inside the region (exactly), named subregions consist of whole cells, `pad_width` is a
+dictionary (distinct axis names) -/
+def OpSide (f : Fld) : FOp → Prop
+  | .sel _ _ => True
+  | .get (.region r) => BoxIn f.mesh r
+  | .get (.name s) => ∃ r k1 k2, findSub f.mesh.subs s = some r ∧ SubAligned f.mesh r k1 k2 ∧
+      r.dims = f.mesh.region.dims ∧ r.units = f.mesh.region.units
+  | .pad pw _ => (pw.map (·.dim)).Nodup
+  | .resample _ => True
+
+theorem selConvert_kind (m : Mesh) (hm : m.Inv) (dim : String) (arg : SelArg) (a : Nat) (s : SelIdx)
+    (h : selConvert m dim arg = .ok (a, s)) :
+    (∃ c k, s = .plane c k ∧ (arg = .centre ∨ ∃ x, arg = .point x)) ∨ (∃ x y, arg = .range x y) := by
+  cases arg with
+  | centre =>
+    obtain ⟨_, hs⟩ := selConvert_centre_inv m hm dim a s h
+    exact Or.inl ⟨_, _, hs, Or.inl rfl⟩
+  | point x =>
+    obtain ⟨_, _, _, hs⟩ := selConvert_point_inv m hm dim x a s h
+    exact Or.inl ⟨_, _, hs, Or.inr ⟨x, rfl⟩⟩
+  | range x y => exact Or.inr ⟨x, y, rfl⟩
+  | bad =>
+    unfold selConvert at h
+    split at h
+    · cases h
+    · cases h
+
+/-- `indexOf?` returns the first position of the name -/
+theorem indexOf_go_iff (x : String) (l : List String) (k i : Nat) :
+    indexOf?.go x l k = some i ↔
+      k ≤ i ∧ i - k < l.length ∧ l.getD (i - k) "" = x ∧ ∀ t, t < i - k → l.getD t "" ≠ x := by
+  induction l generalizing k with
+  | nil => simp [indexOf?.go]
+  | cons y ys ih =>
+    unfold indexOf?.go
+    by_cases hy : y = x
+    · rw [if_pos hy]
+      constructor
+      · intro h
+        injection h with h; subst h
+        refine ⟨le_refl _, by simp, by simp [hy], ?_⟩
+        intro t ht; omega
+      · rintro ⟨h1, h2, h3, h4⟩
+        by_cases hik : i = k
+        · rw [hik]
+        · exfalso
+          exact h4 0 (by omega) (by simp [hy])
+    · rw [if_neg hy, ih (k + 1)]
+      constructor
+      · rintro ⟨h1, h2, h3, h4⟩
+        have e : i - k = (i - (k + 1)) + 1 := by omega
+        refine ⟨by omega, by simp; omega, by rw [e, List.getD_cons_succ]; exact h3, ?_⟩
+        intro t ht
+        cases t with
+        | zero => simpa using hy
+        | succ t => rw [List.getD_cons_succ]; exact h4 t (by omega)
+      · rintro ⟨h1, h2, h3, h4⟩
+        have hne : i ≠ k := by
+          intro hik; rw [hik] at h3; simp at h3; exact hy h3
+        have e : i - k = (i - (k + 1)) + 1 := by omega
+        rw [e, List.getD_cons_succ] at h3
+        refine ⟨by omega, by simp at h2; omega, h3, ?_⟩
+        intro t ht
+        have := h4 (t + 1) (by omega)
+        rwa [List.getD_cons_succ] at this
+
+theorem dim2index_iff (r : Region) (d : String) (a : Nat) :
+    r.dim2index d = .ok a ↔
+      a < r.dims.length ∧ r.dims.getD a "" = d ∧ ∀ t, t < a → r.dims.getD t "" ≠ d := by
+  unfold Region.dim2index indexOf?
+  have key := indexOf_go_iff d r.dims 0 a
+  simp only [Nat.sub_zero, Nat.zero_le, true_and] at key
+  cases h : indexOf?.go d r.dims 0 with
+  | none =>
+    simp only
+    constructor
+    · intro hc; cases hc
+    · intro hc
+      have := key.mpr hc
+      rw [h] at this; cases this
+  | some i =>
+    simp only
+    constructor
+    · intro hc
+      injection hc with hc; subst hc
+      exact key.mp h
+    · intro hc
+      have := key.mpr hc
+      rw [h] at this
+      injection this with this
+      rw [this]
+
+/-- position of a name after another axis has been removed -/
+theorem dim2index_removeAt (r s : Region) (d : String) (a b : Nat) (hb : r.dim2index d = .ok b)
+    (hab : a ≠ b) (ha : a < r.dims.length) (hs : s.dims = removeAt r.dims a) :
+    s.dim2index d = .ok (if b < a then b else b - 1) := by
+  rw [dim2index_iff] at hb ⊢
+  obtain ⟨h1, h2, h3⟩ := hb
+  rw [hs, length_removeAt _ _ ha]
+  by_cases hlt : b < a
+  · rw [if_pos hlt]
+    refine ⟨by omega, ?_, ?_⟩
+    · rw [getD_removeAt_lt _ _ _ _ hlt]; exact h2
+    · intro t ht
+      rw [getD_removeAt_lt _ _ _ _ (by omega)]; exact h3 t ht
+  · rw [if_neg hlt]
+    refine ⟨by omega, ?_, ?_⟩
+    · rw [getD_removeAt_ge _ _ _ _ (by omega)]
+      have : b - 1 + 1 = b := by omega
+      rw [this]; exact h2
+    · intro t ht
+      rw [getD_removeAt]
+      apply h3
+      unfold skip; split <;> omega
+
+theorem insertAt_comm {α} (l : List α) (a b : Nat) (x y : α) (hab : a ≤ b) (hb : b ≤ l.length) :
+    insertAt (insertAt l b y) a x = insertAt (insertAt l a x) (b + 1) y := by
+  induction l generalizing a b with
+  | nil =>
+    have : b = 0 := by simpa using hb
+    subst this
+    have : a = 0 := by omega
+    subst this
+    simp [insertAt]
+  | cons z zs ih =>
+    cases a with
+    | zero => simp [insertAt]
+    | succ a =>
+      cases b with
+      | zero => omega
+      | succ b =>
+        have := ih a b (by omega) (by simpa using hb)
+        simp only [insertAt, List.take_succ_cons, List.drop_succ_cons, List.cons_append] at this ⊢
+        rw [this]
+
+theorem skip_skip (a b c : Nat) (hab : a < b) : skip a (skip (b - 1) c) = skip b (skip a c) := by
+  unfold skip
+  split <;> split <;> split <;> (try split) <;> omega
+
+theorem removeAt_comm {α} (l : List α) (a b : Nat) (d : α) (hab : a < b) (hb : b < l.length) :
+    removeAt (removeAt l a) (b - 1) = removeAt (removeAt l b) a := by
+  apply list_ext_getD _ _ d
+  · rw [length_removeAt _ _ (by rw [length_removeAt _ _ (by omega)]; omega), length_removeAt _ _ (by omega),
+      length_removeAt _ _ (by rw [length_removeAt _ _ hb]; omega), length_removeAt _ _ hb]
+  · intro c _
+    rw [getD_removeAt, getD_removeAt, getD_removeAt, getD_removeAt, skip_skip a b c hab]
+
+theorem indexAx_congr (g m : Mesh) (b s : Nat) (hlo : g.region.lo b = m.region.lo s)
+    (hn : g.nAt b = m.nAt s) (hc : g.cellAt b = m.cellAt s) (z : Rat) : g.indexAx b z = m.indexAx s z := by
+  unfold indexAx; rw [hlo, hn, hc]
+
+/-- a selection of a mesh without subregions has no subregions -/
+theorem selMesh_nosubs (m : Mesh) (hs : m.subs = []) (dim : String) (arg : SelArg) (g : Mesh)
+    (h : selMesh m dim arg = .ok g) : g.subs = [] := by
+  unfold selMesh at h
+  split at h
+  · cases h
+  · rename_i ai _
+    cases hsi : ai.2 with
+    | plane c k =>
+      rw [hsi] at h
+      have h' : selPlaneMesh m ai.1 c = .ok g := h
+      unfold selPlaneMesh at h'
+      rw [hs] at h'
+      simp only [planeSubs] at h'
+      split at h'
+      · cases h'
+      · unfold mkMesh? at h'
+        split at h'
+        · cases h'
+        · exact (setSubs_inv _ _ _ h').2.2.2
+    | range c1 c2 k1 k2 =>
+      rw [hsi] at h
+      have h' : selRangeMesh m ai.1 c1 c2 = .ok g := h
+      unfold selRangeMesh at h'
+      rw [hs] at h'
+      simp only [rangeSubs] at h'
+      split at h'
+      · cases h'
+      · unfold mkMesh? at h'
+        split at h'
+        · cases h'
+        · exact (setSubs_inv _ _ _ h').2.2.2
+
+/-- the upper index of a coordinate in a block of whole cells and in the source differ by the
+block's offset (no exception: `ceil - 1` attributes a face to the cell below it in both) -/
+theorem upperIdx_block {g m : Mesh} {b off cnt : Nat} (blk : AxisBlock g m b b off cnt)
+    (hc : 0 < m.cellAt b) (z : Rat) : upperIdx m b z = (off : Int) + upperIdx g b z := by
+  obtain ⟨u1, u2⟩ := upperIdx_bounds m b z hc
+  obtain ⟨v1, v2⟩ := upperIdx_bounds g b z (by rw [blk.cell]; exact hc)
+  rw [blk.lo, blk.cell] at v1 v2
+  have a1 : (upperIdx m b z : Rat) < ((off : Int) + upperIdx g b z : Int) + 1 := by
+    by_contra hcon; rw [not_lt] at hcon
+    have := mul_le_mul_of_nonneg_right hcon hc.le
+    push_cast at this
+    nlinarith
+  have a2 : (((off : Int) + upperIdx g b z : Int) : Rat) < (upperIdx m b z : Rat) + 1 := by
+    by_contra hcon; rw [not_lt] at hcon
+    have := mul_le_mul_of_nonneg_right hcon hc.le
+    push_cast at this
+    nlinarith
+  have i1 : upperIdx m b z < (off : Int) + upperIdx g b z + 1 := by exact_mod_cast a1
+  have i2 : (off : Int) + upperIdx g b z < upperIdx m b z + 1 := by exact_mod_cast a2
+  omega
+
 end DFV.C07
